@@ -73,6 +73,9 @@ def run(run):
         if rng.random() < 0.5:
             targs.append([rng.choice(["k", "x"]), rng.choice(plain)])
         cases.append({"kind": "expandtemplate", "ttitle": rng.choice(["s", "b", "a", "nosuch"]), "targs": targs})
+        if rng.random() < 0.3:
+            cases.append({"kind": "reenter", "how": rng.choice(["et", "pp", "pp1", "pet"]), "a1": rng.choice(["in", "x y", "7", "go2"]),
+                          "a2": rng.choice(["v", "", "w w"])})
         pn, vecs = rng.choice(PFS)
         cases.append({"kind": "callpf", "pname": pn, "pargs": rng.choice(vecs)})
     res = lib.run_impl("c08", cases, shards=lib.NCPU)
@@ -106,6 +109,12 @@ def run(run):
             if norm(r["parent_args"]) != norm(inner[-1][1]):
                 run.property_failure("c08:parent-args", "parent args %r, enclosing template's arguments %r"
                                      % (norm(r["parent_args"]), norm(inner[-1][1])), c)
+        elif c["kind"] == "reenter":
+            # the inner call of the same template sees its own arguments: outer part + what the inner call gives on its own
+            head = r["outer_alone"][:r["outer_alone"].find(">>") + 2]
+            if r["lua"] != head + r["direct"]:
+                run.property_failure("c08:reenter-differs:" + c["how"], "a template re-entered from its own module gives %r, "
+                                     "the outer part %r followed by the plain inner call gives %r" % (r["lua"], head, r["direct"]), c)
         elif c["kind"] in ("preprocess", "callpf"):
             if r["lua"] != r["direct"]:
                 run.property_failure("c08:%s-differs" % c["kind"], "Lua gives %r, wikitext gives %r" % (r["lua"], r["direct"]), c)
